@@ -68,10 +68,12 @@ func TestCandidates(t *testing.T) {
 	kv, kvk2, k2, kEmpty, emptyKey, none := m[1], m[3], m[4], m[5], m[6], m[0]
 
 	// (1) PinOptions.Equals metadata loop: a removed key is not a change
+	// (repaired by dd644b4; kept as a regression history)
 	play(t, "candidates", leader, false, pinc("a", kvk2), pinc("a", k2))
 	play(t, "candidates", leader, false, pinc("a", kv), pinc("a", none))
 	// ... nor a key added with an empty value, nor anything under the empty key
 	play(t, "candidates", leader, false, pinc("a"), pinc("a", kEmpty))
+	play(t, "candidates", leader, false, pinc("a", kEmpty), pinc("a"))
 	play(t, "candidates", leader, false, pinc("a"), pinc("a", emptyKey))
 	play(t, "candidates", leader, false, pinc("a", emptyKey), pinc("a"))
 	// the comparison itself, without a cluster
